@@ -273,4 +273,39 @@ theorem collectionRules_eq : collectionRules =
     ["option=option", "include_file=include_file", "macro=macro", "plugin=plugin", "object=statement",
      "var=statement", "snowfakery_version=snowfakery_version"] := rfl
 
+/-! ### the formula namespace: who may shadow an option -/
+
+def layerOfTag : String → Option Layer
+  | "builtins" => some .builtin
+  | "options" => some .option
+  | "object_names" => some .objectName
+  | "row_fields" => some .rowField
+  | "plugins" => some .plugin
+  | "variables" => some .variable
+  | _ => none
+
+/-- `simple_field_vars` is one dict literal whose entries come in this order (later overrides earlier):
+    the built-ins are written *before* the options, object names / row fields / plugins / variables after -/
+theorem namespaceLayers_eq :
+    namespaceLayers = ["builtins", "options", "object_names", "row_fields", "plugins", "variables"] := rfl
+
+/-- … `field_vars` merges the standard functions over all of it: together the model's `layerOrder` -/
+theorem layerOrder_pinned :
+    namespaceLayers.filterMap layerOfTag ++ [Layer.func] = layerOrder ∧
+    fieldVarsMerge = ["self.simple_field_vars()", "self.field_funcs()"] := ⟨by decide, rfl⟩
+
+theorem builtinKeys_eq :
+    builtinKeys = ["id", "count", "child_index", "this", "today", "now", "fake", "template"] := rfl
+
+/-- **the options clause for the code as it is**: with the pinned order, a declared option is what a
+    formula sees unless an object name, a row field, a plugin, a variable or a function of that name is
+    nearer; in particular none of the pinned built-in names can hide it -/
+theorem option_visible_pinned (binds : Layer → List String) (name : String)
+    (hb : binds .builtin = builtinKeys) (ho : name ∈ binds .option)
+    (h : name ∉ binds .objectName ∧ name ∉ binds .rowField ∧ name ∉ binds .plugin ∧
+      name ∉ binds .variable ∧ name ∉ binds .func) :
+    resolveIn (namespaceLayers.filterMap layerOfTag ++ [Layer.func]) binds name = some .option := by
+  rw [layerOrder_pinned.1]
+  exact (SnowModel.Props.C14.option_visible binds name).mpr ⟨ho, h⟩
+
 end SnowModel.Props.C14Bridge
